@@ -25,11 +25,15 @@ type Conn struct {
 }
 
 func newServer(s *Swarm, netConn net.Conn) (*Conn, error) {
-	var pubKey ssh.PublicKey
+	// PublicKeyCallback is also called for keys the client merely asks about, without proving
+	// possession. Only the Permissions of the key that finally authenticated are attached to the
+	// connection, so the key travels in them rather than in a variable set by the last call.
+	const pubKeyExt = "sshswarm-pubkey"
 	config := &ssh.ServerConfig{
 		PublicKeyCallback: func(md ssh.ConnMetadata, pk ssh.PublicKey) (*ssh.Permissions, error) {
-			pubKey = pk
-			return &ssh.Permissions{}, nil
+			return &ssh.Permissions{
+				Extensions: map[string]string{pubKeyExt: string(pk.Marshal())},
+			}, nil
 		},
 	}
 	config.AddHostKey(s.signer)
@@ -38,8 +42,14 @@ func newServer(s *Swarm, netConn net.Conn) (*Conn, error) {
 	if err != nil {
 		return nil, err
 	}
-	if pubKey == nil {
+	if sconn.Permissions == nil || sconn.Permissions.Extensions[pubKeyExt] == "" {
+		sconn.Close()
 		return nil, errors.New("pubkey not set after connection")
+	}
+	pubKey, err := ssh.ParsePublicKey([]byte(sconn.Permissions.Extensions[pubKeyExt]))
+	if err != nil {
+		sconn.Close()
+		return nil, err
 	}
 
 	raddr := sconn.RemoteAddr().(*net.TCPAddr)
